@@ -161,9 +161,14 @@ def build_synthetic(rng):
         pool.append(t)
     for _ in range(rng.randint(0, 3)):
         pool.append(rand_plain(rng))
+    # plain containers (dict / list) that REFER to a tensor which may also be a direct field elsewhere (e.g. a misc dict or a history list);
+    # placed early in the pool so that they tend to come before that field (added after round-5 seeded change C18-e2)
+    if rng.random() < 0.35:
+        t = rng.choice(tensors)
+        pool.insert(0, {'ref': t, 'n': rng.randint(0, 5)} if rng.random() < 0.5 else [rng.randint(0, 5), t])
     for _ in range(rng.randint(0, 2)):
         pool.append(rand_module(rng))
-    leaves = [p for p in pool if not isinstance(p, torch.nn.Module)]
+    leaves = [p for p in pool if not isinstance(p, torch.nn.Module) and not isinstance(p, (dict, list))]
     from mrpro.data import SpatialDimension
     for _ in range(rng.randint(0, 2)):
         pool.append(make_spatial(*(rng.choice(leaves) if rng.random() < 0.7 else rand_tensor(rng) for _ in range(3))))
@@ -592,6 +597,15 @@ def build(case):
         t = rand_tensor(rng, 'f32', [2])
         root = syn_class(2)(make_spatial(t, rand_tensor(rng, 'f32', [2]), rand_tensor(rng, 'f32', [2])),
                             t if case['seed'] % 2 else make_spatial(rand_tensor(rng, 'f32', [2]), t, rand_tensor(rng, 'f32', [2])))
+    elif case['kind'] == 'plain_ref':
+        # a plain dict / list field that REFERS to a tensor which is also a direct field later in field order (a misc dict, a history list),
+        # on the root or one level down (seeded change C18-e2)
+        t = rand_tensor(rng, rng.choice(['f32', 'c64']), [3])
+        plain = {'ref': t, 'n': 1} if case['seed'] % 2 else [0, t]
+        if case['seed'] % 4 < 2:
+            root = syn_class(3)(plain, t, rand_tensor(rng, 'f32', [2]))
+        else:
+            root = syn_class(2)(syn_class(2)(plain, rand_tensor(rng, 'i64', [2])), t)
     elif case['kind'] == 'kf_module':
         # pattern of the former finding KF-C18-2 (repaired by ff6337f): a Rotation (module) field and a precision-changing call without copy
         root = _acq_info(rng, fdt='f64') if case['seed'] % 2 else syn_class(2)(rand_rotation(rng, 'f64'), rand_tensor(rng, 'f64', [2]))
@@ -931,6 +945,12 @@ def gen_kf_spatial(rng, tier):
             for c in ({'fn': 'clone'}, {'fn': 'to_dtype', 'dtype': 'f64', 'style': 0, 'copy': True})]
 
 
+def gen_plain_ref(rng, tier):
+    return [finish({'kind': 'plain_ref', 'seed': i, 'call': c}) for i in range(4 if tier == 'quick' else 16)
+            for c in ({'fn': 'clone'}, {'fn': 'to_dtype', 'dtype': 'f64', 'style': 0, 'copy': True}, {'fn': 'double', 'copy': True},
+                      {'fn': 'to_dtype', 'dtype': 'f64', 'style': 0, 'copy': False})]
+
+
 def gen_kf_module(rng, tier):
     return [finish({'kind': 'kf_module', 'seed': 2 * i + j, 'call': c}) for i in range(2 if tier == 'quick' else 10) for j in (0, 1)
             for c in ({'fn': 'single', 'copy': False}, {'fn': 'to_dtype', 'dtype': 'f16', 'style': 0, 'copy': False})]
@@ -959,6 +979,8 @@ FAMILIES = [
     Family('all_overloads', gen_all_calls, impl, coq, PREAMBLE, compare, oracle, nontrivial=nontrivial, descr=descr, shard=40,
            theorem='C18_kind (all parsers of to())'),
     # regression families for the repaired findings KF-C18-1..3 (also in corpus/C18/*.json)
+    Family('plain_container_reference', gen_plain_ref, impl, coq, PREAMBLE, compare, oracle, descr=descr, shard=40,
+           theorem='C18_kind, C18_requested_prec, C18_fresh (the field itself; what a plain dict / list holds is outside the model)'),
     Family('spatial_alias', gen_kf_spatial, impl, coq, PREAMBLE, compare, oracle, descr=descr, shard=40,
            theorem='C18_alias (through SpatialDimension components)'),
     Family('module_nocopy', gen_kf_module, impl, coq, PREAMBLE, compare, oracle, descr=descr, shard=40,
